@@ -280,7 +280,7 @@ def key_call(r, e):
     return KEY.weighted_score(r, e)
 
 
-def b_patterns(occ=(1, 1), notes=1, thres=False):
+def b_patterns(occ=(1, 1), notes=1, thres=False, fixed_kw=None):
     """size = (n ref patterns, m est patterns); each pattern has occ[k] occurrences of `notes` notes (an int, or a pair
     (notes per reference occurrence, notes per estimated occurrence))."""
     def build(ctx, size):
@@ -290,6 +290,8 @@ def b_patterns(occ=(1, 1), notes=1, thres=False):
             ctx.assume(t > 0)
             ctx.assume(t <= 1)
             d['kw']['thres'] = t
+        if fixed_kw:
+            d['kw'].update(fixed_kw)
         return d
 
     def build0(ctx, size):
@@ -568,6 +570,11 @@ add('pattern.first_n_three_layer_P', PAT.first_n_three_layer_P, b_patterns((1, 1
     _sz([(1, 1), (1, 2)], [(1, 1), (1, 2), (2, 2)]), funcs=['pattern.first_n_three_layer_P'] + PAT_FUNCS, perfect=[1])
 add('pattern.first_n_target_proportion_R', PAT.first_n_target_proportion_R, b_patterns((1, 1), 1), [('R', 'unit')],
     _sz([(1, 1), (1, 2)], [(1, 1), (1, 2), (2, 2)]), funcs=['pattern.first_n_target_proportion_R'] + PAT_FUNCS, perfect=[1])
+# non-default n equal to (and one below) the number of patterns: the first-n clamp is exercised at its boundary (seed s16_C02)
+add('pattern.first_n_three_layer_P[n=2]', PAT.first_n_three_layer_P, b_patterns((1, 1), 1, fixed_kw={'n': 2}), [('P', 'unit')],
+    _sz([(2, 2)], [(2, 2), (3, 2), (2, 3)]), funcs=['pattern.first_n_three_layer_P'] + PAT_FUNCS, perfect=[1])
+add('pattern.first_n_target_proportion_R[n=2]', PAT.first_n_target_proportion_R, b_patterns((1, 1), 1, fixed_kw={'n': 2}), [('R', 'unit')],
+    _sz([(2, 2)], [(2, 2), (3, 2), (2, 3)]), funcs=['pattern.first_n_target_proportion_R'] + PAT_FUNCS, perfect=[1])
 
 # ---- hierarchy
 add('hierarchy.tmeasure', HIER.tmeasure, b_hier(2, 0.5, 2.0), UNIT3, _sz([(2, 2)], [(2, 2), (3, 2)]),
